@@ -27,6 +27,8 @@ CONSTANTS
   OthersCall = "never"
   KeepPagesWritable = FALSE
   TrampFlushed = TRUE
+  Regen = FALSE
+  SavedFrom = "install"
   UserCalls = FALSE
   MaxUserCalls = 0
   InstallKinds = {"jump"}
